@@ -30,6 +30,42 @@ def conc(E, t, what):
     return n
 
 
+SETK = ("set", "hset", "bset")
+
+
+def iteration_order(E, d, key_of=None):
+    """indices of d.items in the order the container iterates them.  Default: insertion order (sound only for obligations
+    that do not depend on the order).  With E.model_iteration_order set: a hash container ("hset" / "hmap") iterates in an
+    ARBITRARY order — every permutation is a fork, nothing relates two iterations —, an ordered one ("bset") in the
+    order of an uninterpreted strict total order `container_ord` on element identities."""
+    n = len(d.items)
+    if not getattr(E, "model_iteration_order", False) or d.kind not in ("hset", "hmap", "bset") or n < 2:
+        return list(range(n))
+    key_of = key_of or (lambda it: elem_ident(E, it))
+    ids = [key_of(it) for it in d.items]
+    rest, order = list(range(n)), []
+    if d.kind == "bset":
+        lt = z3.Function("container_ord", ids[0].sort(), ids[0].sort(), z3.BoolSort())
+        for a in range(n):
+            E.pc.append(z3.Not(lt(ids[a], ids[a])))
+            for b in range(n):
+                if a < b:
+                    E.pc.append(z3.Implies(ids[a] != ids[b], z3.Xor(lt(ids[a], ids[b]), lt(ids[b], ids[a]))))
+                for c_ in range(n):
+                    if len({a, b, c_}) == 3:
+                        E.pc.append(z3.Implies(z3.And(lt(ids[a], ids[b]), lt(ids[b], ids[c_])), lt(ids[a], ids[c_])))
+        while len(rest) > 1:
+            conds = [z3.And([lt(ids[c_], ids[o]) for o in rest if o != c_]) for c_ in rest]
+            k = E.choose(conds, "ordered iteration")
+            order.append(rest.pop(k))
+        return order + rest
+    while len(rest) > 1:
+        pick = z3.FreshConst(z3.IntSort(), "hash_order")
+        k = E.choose([pick == j for j in range(len(rest))], "hash iteration order", trust=True)
+        order.append(rest.pop(k))
+    return order + rest
+
+
 def last_seg_(t):
     from engine import last_seg
     return last_seg(t)
@@ -80,12 +116,13 @@ def dispatch(E, c, tc, args):
             return v
         if isinstance(d, VSeq):
             byref = isinstance(v, VRef)
+            order = iteration_order(E, d, (lambda it: elem_ident(E, it.fields[0])) if d.kind in ("map", "hmap") else None)
             if byref:
                 r = ref_chain(E, v)
-                if d.kind == "map":
-                    return VSeq([VStruct("()", [VRef(r.cell, r.path + (("field", k), ("field", 0))), VRef(r.cell, r.path + (("field", k), ("field", 1)))]) for k in range(len(d.items))], "iter")
-                return VSeq([VRef(r.cell, r.path + (("field", k),)) for k in range(len(d.items))], "iter")
-            return VSeq(list(d.items), "iter")
+                if d.kind in ("map", "hmap"):
+                    return VSeq([VStruct("()", [VRef(r.cell, r.path + (("field", k), ("field", 0))), VRef(r.cell, r.path + (("field", k), ("field", 1)))]) for k in order], "iter")
+                return VSeq([VRef(r.cell, r.path + (("field", k),)) for k in order], "iter")
+            return VSeq([d.items[k] for k in order], "iter")
     # ---------------- Vec / slice basics
     if re.match(r"^std::vec::Vec::<.*>::(len|is_empty)$", c, re.S) or re.search(r"<impl \[.*\]>::(len|is_empty)$", c):
         d = deref(E, args[0])
@@ -111,17 +148,18 @@ def dispatch(E, c, tc, args):
     if m2 and args:
         r = ref_chain(E, args[0]) if isinstance(args[0], VRef) else None
         d = E.read_ref(r) if r is not None else None
-        if isinstance(d, VSeq) and d.kind == "map":
+        if isinstance(d, VSeq) and d.kind in ("map", "hmap"):
             n = len(d.items)
             meth = m2.group(2)
             if meth == "len":
                 return VInt(n, "usize")
             if meth == "is_empty":
                 return VBool(n == 0)
+            order = iteration_order(E, d, lambda it: elem_ident(E, it.fields[0]))
             if meth == "iter":
-                return VSeq([VStruct("()", [VRef(r.cell, r.path + (("field", k), ("field", 0))), VRef(r.cell, r.path + (("field", k), ("field", 1)))]) for k in range(n)], "iter")
+                return VSeq([VStruct("()", [VRef(r.cell, r.path + (("field", k), ("field", 0))), VRef(r.cell, r.path + (("field", k), ("field", 1)))]) for k in order], "iter")
             idx = 0 if meth == "keys" else 1
-            return VSeq([VRef(r.cell, r.path + (("field", k), ("field", idx))) for k in range(n)], "iter")
+            return VSeq([VRef(r.cell, r.path + (("field", k), ("field", idx))) for k in order], "iter")
     if re.search(r"<impl \[.*\]>::contains$", c) or re.match(r"^std::vec::Vec::<.*>::contains$", c, re.S):
         d = deref(E, args[0])
         if isinstance(d, VSeq):
@@ -164,7 +202,7 @@ def dispatch(E, c, tc, args):
             # membership in an abstract (lazily initialised) map: an arbitrary but fixed predicate of map and key
             f = z3.Function("map_contains_key", E.U, E.U, z3.BoolSort())
             return VBool(f(E.as_u(d), elem_ident(E, args[1])))
-        if isinstance(d, VSeq) and d.kind in ("map", "umap"):
+        if isinstance(d, VSeq) and d.kind in ("map", "umap", "hmap"):
             kid = str(elem_ident(E, args[1]))
             pos = None
             for k, it in enumerate(d.items):
@@ -269,16 +307,17 @@ def dispatch(E, c, tc, args):
     if ms:
         meth = ms.group(2)
         if meth == "new" and not args:
-            return VSeq([], "set")
+            fam = ms.group(1)
+            return VSeq([], ("hset" if fam == "HashSet" else "bset" if fam == "BTreeSet" else "set") if getattr(E, "model_iteration_order", False) else "set")
         r = ref_chain(E, args[0]) if args and isinstance(args[0], VRef) else None
         d = E.read_ref(r) if r is not None else None
-        if isinstance(d, VSeq) and d.kind == "set":
+        if isinstance(d, VSeq) and d.kind in SETK:
             if meth == "len":
                 return VInt(len(d.items), "usize")
             if meth == "is_empty":
                 return VBool(len(d.items) == 0)
             if meth == "iter":
-                return VSeq([VRef(r.cell, r.path + (("field", k),)) for k in range(len(d.items))], "iter")
+                return VSeq([VRef(r.cell, r.path + (("field", k),)) for k in iteration_order(E, d)], "iter")
             # membership by equality of element identities (smart pointers are transparent): present or not is a solver-checked fork
             x = elem_ident(E, args[1])
             present = z3.Or([elem_ident(E, it) == x for it in d.items]) if d.items else z3.BoolVal(False)
@@ -321,7 +360,7 @@ def dispatch(E, c, tc, args):
             n = conc(E, deref(E, args[1]).t, "index")
             return some(VRef(r.cell, r.path + (("field", n),))) if n < len(d.items) else NONE()
     # ---------------- iterator protocol on VSeq("iter")
-    if tc and tc[1] in ("Iterator", "DoubleEndedIterator") and args:
+    if tc and tc[1] in ("Iterator", "DoubleEndedIterator", "Itertools", "itertools::Itertools") and args:
         it = deref(E, args[0])
         if isinstance(it, VStruct) and it.name == "Range" and tc[2] != "next":
             lo, hi = conc(E, it.fields[0].t, "range start"), conc(E, it.fields[1].t, "range end")
@@ -376,6 +415,16 @@ def dispatch(E, c, tc, args):
                 for x in rest:
                     b = E.call_value(args[1], [VRef(Cell(x, "filter_item"))])
                     if E.choose([b.t, z3.Not(b.t)], "filter") == 0:
+                        keep.append(x)
+                return VSeq(keep, "iter")
+            if meth in ("dedup", "unique"):
+                # itertools: dedup drops CONSECUTIVE repeats only, unique drops every repeat; element equality is identity
+                # equality decided by the solver (both outcomes explored)
+                keep = []
+                for x in rest:
+                    against = keep[-1:] if meth == "dedup" else keep
+                    dup = z3.Or([elem_ident(E, y) == elem_ident(E, x) for y in against]) if against else z3.BoolVal(False)
+                    if E.choose([z3.Not(dup), dup], meth) == 0:
                         keep.append(x)
                 return VSeq(keep, "iter")
             if meth == "map_while":
@@ -471,5 +520,12 @@ def dispatch(E, c, tc, args):
                     # keyed lookups only ("umap"): the iteration order of a map collected from abstract keys is not known
                     pairs = [deref(E, x) for x in rest]
                     return VSeq([VStruct("()", [p_.fields[0], p_.fields[1]]) for p_ in pairs], "map" if tgt == "LinkedHashMap" else "umap")
+                if tgt in ("BTreeSet", "HashSet", "LinkedHashSet"):
+                    keep = []
+                    for x in rest:
+                        dup = z3.Or([elem_ident(E, y) == elem_ident(E, x) for y in keep]) if keep else z3.BoolVal(False)
+                        if E.choose([z3.Not(dup), dup], "collect into a set") == 0:
+                            keep.append(x)
+                    return VSeq(keep, "set")
                 return VSeq(rest, "vec")
     return NotImplemented
